@@ -115,8 +115,17 @@ func keyJSON(tk *TestKey, withPrivate bool) map[string]any {
 		"private": k.KeyVal.Private, "certificate": k.KeyVal.Certificate}
 }
 
+// keyAlgOrder: test keys whose hash algorithm list is written in another order (the order is part
+// of the key object and of the signed layout; nothing may "normalise" it in place —
+// seeded change c10-sorts-callers-hash-algorithms)
+var keyAlgOrder = map[string][]any{}
+
 func keyTree(tk *TestKey) JObj {
-	return O("keyid", tk.ID, "keyid_hash_algorithms", []any{"sha256", "sha512"}, "keytype", tk.Pub.KeyType,
+	algs := []any{"sha256", "sha512"}
+	if a, ok := keyAlgOrder[tk.ID]; ok {
+		algs = a
+	}
+	return O("keyid", tk.ID, "keyid_hash_algorithms", algs, "keytype", tk.Pub.KeyType,
 		"keyval", O("public", tk.Pub.KeyVal.Public), "scheme", tk.Pub.Scheme)
 }
 
